@@ -968,8 +968,12 @@ func c19c(c *Ctx) {
 				}
 				underNewline := false
 				for _, l := range c.mustLits(rs, ci.Block()) {
-					if strings.HasPrefix(l, "+") && strings.Contains(l, "skipNewlineWhitespace") {
-						underNewline = true
+					// (a positive answer of a lexer method that itself consumes characters — the
+					// line-break skipper, whatever it is called)
+					if m := queueHelperRe.FindStringSubmatch(strings.TrimPrefix(l, "+")); strings.HasPrefix(l, "+") && m != nil {
+						if h := c.W.Method("lexer", "Lexer", m[1]); h != nil && h != sw && c.T(rs).purity(h) < purReadOnly {
+							underNewline = true
+						}
 					}
 				}
 				if underNewline {
